@@ -14,8 +14,14 @@ pm_c08: model driver for C08.  One op per line; `case k` = a fresh data director
   kval <i> <f> <colkey> <v>                            PQL Set on an int field of a keyed index -> ok|err:too-low|err:too-high
   impval <i> <f> <0|1> <c:v,...>                       API.ImportValue     -> ok|err:too-low|err:too-high
   val <i> <f> <col>                                    Field.Value         -> <v>|null
-  data <...>                                           writes to other field types (bits, keys, times, attrs); the
-                                                       model does not interpret them                           -> ok
+  data <kind> <i> <f> ...                              writes to non-int fields (bit, tbit, clear, imp, bigimp, rattr, cattr);
+                                                       interpreted by the model for unkeyed set fields of unkeyed
+                                                       indexes (bit/clear/imp/bigimp), otherwise not            -> ok
+  data bigimp <i> <f> <row> <shard> <n>                API.Import of n consecutive columns from column 1000 of the shard
+  maxopn <i> <f> <n>                                   hook: fragment.MaxOpN of the field's fragments (n = 0: every
+                                                       changing write ends in a snapshot, opN back to 0)        -> ok
+  topn <i> <f>                                         RecalculateCaches; TopN(f)              -> row:count ... (count desc, row asc) | -
+  topnids <i> <f> <ids>                                RecalculateCaches; TopN(f, ids=[...])   -> row:count ... | -
   reopen                                               the harness runs its query battery, closes the server, reopens
                                                        the directory and runs the battery again               -> same
 `#spec` for `opts`/`val` after a restart is what they answered before it (Spec: restart = identity).
@@ -29,6 +35,10 @@ structure Fld where
   name : String
   opts : Opts
   cols : List Rec := []
+  /-- bits of a plain (unkeyed) set field, and whether its caches went through Close + Open since
+  the last write (then TopN is answered from the reopened caches) -/
+  sd : SetData := {}
+  reopened : Bool := false
 
 structure Idx where
   name : String
@@ -90,8 +100,28 @@ def existOpts : Opts :=
 
 def reopenFld (f : Fld) : Fld :=
   match reopenOptions (saveMeta f.opts) with
-  | .ok o => { f with opts := o }
+  | .ok o => { f with opts := o, reopened := true }
   | .error _ => f
+
+/-- Single writes and bulk imports are interpreted for unkeyed set fields of unkeyed indexes. -/
+def plain (ix : Idx) (f : Fld) : Bool := f.opts.typ == .set && !f.opts.keys && !ix.keys
+
+def insertPair (p : Nat × Nat) : List (Nat × Nat) → List (Nat × Nat)
+  | [] => [p]
+  | q :: rest => if p.2 > q.2 || (p.2 == q.2 && p.1 < q.1) then p :: q :: rest else q :: insertPair p rest
+
+def showPairs (ps : List (Nat × Nat)) : String :=
+  if ps.isEmpty then "-" else " ".intercalate ((ps.foldl (fun acc p => insertPair p acc) []).map (fun p => s!"{p.1}:{p.2}"))
+
+/-- `TopN(f)` after `RecalculateCaches`: from the caches as they are (rebuilt by openCache after a restart). -/
+def fldTopN (f : Fld) : List (Nat × Nat) :=
+  if f.opts.cacheType == .none then []
+  else topN (f.sd.shards.map (fun s => if f.reopened then reopenCache f.sd s else fragCache f.sd s))
+
+def parseRC (s : String) : Option (List (Nat × Nat)) :=
+  (s.splitOn ",").mapM (fun it => match it.splitOn ":" with
+    | [r, c] => do pure (← r.toNat?, ← c.toNat?)
+    | _ => none)
 
 def reopenAll (l : List Idx) : List Idx := l.map (fun i => { i with flds := i.flds.map reopenFld })
 
@@ -207,8 +237,45 @@ def apply (restart : List Idx → List Idx) (l : List Idx) (ws : List String) : 
     | some ix =>
       if kind = "cattr" then (l, "ok")
       else match rest with
-        | f :: _ => if (findFld ix f).isSome then (l, "ok") else (l, "err:not-found")
+        | f :: args =>
+          match findFld ix f with
+          | none => (l, "err:not-found")
+          | some fl =>
+            if !plain ix fl then (l, "ok")
+            else
+              let upd (sd : SetData) : List Idx × String :=
+                (updIdx l (updFld ix { fl with sd := sd, reopened := false }), "ok")
+              match kind, args with
+              | "bit", [r, c] =>
+                match r.toNat?, c.toNat? with
+                | some r, some c => upd (fl.sd.setBit r c)
+                | _, _ => (l, "ok")
+              | "clear", [r, c] =>
+                match r.toNat?, c.toNat? with
+                | some r, some c => upd (fl.sd.clearBit r c)
+                | _, _ => (l, "ok")
+              | "imp", [ps] =>
+                match parseRC ps with
+                | some rcs => upd (rcs.foldl (fun sd rc => sd.setBit rc.1 rc.2) fl.sd)
+                | none => (l, "bad-op")
+              | "bigimp", [r, sh, n] =>
+                match r.toNat?, sh.toNat?, n.toNat? with
+                | some r, some sh, some n => upd (fl.sd.bulkImport r sh n)
+                | _, _, _ => (l, "bad-op")
+              | _, _ => (l, "ok")
         | [] => (l, "bad-op")
+  | ["maxopn", i, f, _] =>
+    match (findIdx l i).bind (findFld · f) with
+    | none => (l, "err:not-found")
+    | some _ => (l, "ok")
+  | ["topn", i, f] =>
+    match (findIdx l i).bind (findFld · f) with
+    | none => (l, "err:not-found")
+    | some fl => (l, showPairs (fldTopN fl))
+  | ["topnids", i, f, ids] =>
+    match (findIdx l i).bind (findFld · f), csvNats? ids with
+    | some fl, some ids => (l, showPairs ((fldTopN fl).filter (fun p => ids.contains p.1)))
+    | _, _ => (l, "err:not-found")
   | ["reopen"] => (restart l, "same")
   | _ => (l, "bad-op")
 
